@@ -208,7 +208,7 @@ func (w *World) deposit() *draft {
 	}
 	tx := common.NewTransactionV5(asset)
 	amount := regimeAmount(w.r)
-	if w.r.Chance(2, 3) {
+	if w.plain || w.r.Chance(2, 3) {
 		amount = big.NewInt(int64(w.r.Range(1, 100000)))
 	}
 	tx.AddDepositInput(&common.DepositData{Chain: chain, AssetKey: key, Transaction: hex.EncodeToString(w.r.Bytes(32)),
@@ -479,6 +479,7 @@ var sigShapes = []string{"idx1", "idx2", "idx65535", "two", "two-no-zero", "empt
 // fully valid deposit / node accept / node cancel scenarios (every check before the
 // validator's use of sigs[0][0] passes) whose single signature map is reshaped
 func (w *World) depositSigShape() *draft {
+	w.plain = true
 	d := w.deposit()
 	d.kind = "deposit-sigshape"
 	d.sigShape = sigShapes[w.r.Intn(len(sigShapes))]
